@@ -1,12 +1,478 @@
-//! C06 — not built yet (stub; see DESIGN.md §5).
-use crate::ctx::Tier;
-use serde_json::Value;
+//! C06 (mc part) — a dead or misbehaving connection fails calls promptly, and a
+//! timed-out or cancelled call leaves nothing behind; for the two tokio clients
+//! over in-memory streams with a paused clock (a hang = the call is still
+//! pending after a virtual hour). The blocking client is decided under loom.
 
-pub fn run(_tier: Tier) -> ! {
-    eprintln!("MACHINERY-ERROR property=C06 check not built yet");
-    std::process::exit(2)
+use crate::clients::{self, Cli, Conn, Kind, Res};
+use crate::ctx::{Ctx, Samples, Tier};
+use crate::frames::{Frame, Hdr};
+use crate::memstream;
+use crate::par;
+use serde_json::{Value, json};
+use std::collections::BTreeMap;
+use std::time::Duration;
+
+#[derive(Clone, Copy, Debug, PartialEq, Eq)]
+enum Fault {
+    CloseBeforeCalls,
+    CloseAfterRequests,
+    ResetAfterRequests,
+    /// first `c` bytes of the reply to call 0, then EOF (c resolved against the reply length)
+    MidResponse(Cut),
+    Malformed(Hostile),
+    AnswerOneThenClose,
 }
 
-pub fn replay(_case: &Value) -> Result<(), String> {
-    Err("no replay for C06 yet".into())
+#[derive(Clone, Copy, Debug, PartialEq, Eq)]
+enum Cut {
+    One,
+    HeaderMinus1,
+    Header,
+    HeaderPlusQuery,
+    LenMinus1,
 }
+
+#[derive(Clone, Copy, Debug, PartialEq, Eq)]
+enum Hostile {
+    BadSpec,
+    LengthMismatch,
+    OverflowingSum,
+    Declared2p62,
+    TrailingGarbage,
+}
+
+#[derive(Clone, Debug)]
+enum Scenario {
+    Failure { kind: Kind, inflight: usize, timed: bool, fault: Fault },
+    /// call with timeout T; reply delivered `early_ms` before (Some) or never/after the deadline
+    Timeout { kind: Kind, reply_before_ms: Option<u64>, second_in_flight: bool },
+    TwoTimeouts { kind: Kind },
+    /// abort the call task at a chosen point of its life
+    Cancel { kind: Kind, point: CancelPoint },
+}
+
+#[derive(Clone, Copy, Debug, PartialEq, Eq)]
+enum CancelPoint {
+    /// never polled
+    BeforeStart,
+    /// request written, waiting for the response
+    AwaitingResponse,
+    /// registered, waiting for the writer lock held by a stalled writer (AsyncClient)
+    AwaitingWriterLock,
+}
+
+fn scenarios(tier: Tier) -> Vec<Scenario> {
+    let mut v = Vec::new();
+    let inflights: &[usize] = if tier == Tier::Thorough { &[0, 1, 2, 4, 16] } else { &[0, 1, 2, 3] };
+    for kind in [Kind::Async, Kind::Ws] {
+        let mut faults = vec![Fault::CloseBeforeCalls, Fault::CloseAfterRequests, Fault::ResetAfterRequests, Fault::AnswerOneThenClose];
+        for c in [Cut::One, Cut::HeaderMinus1, Cut::Header, Cut::HeaderPlusQuery, Cut::LenMinus1] {
+            faults.push(Fault::MidResponse(c));
+        }
+        for h in [Hostile::BadSpec, Hostile::LengthMismatch, Hostile::OverflowingSum, Hostile::Declared2p62, Hostile::TrailingGarbage] {
+            faults.push(Fault::Malformed(h));
+        }
+        for &inflight in inflights {
+            for timed in [false, true] {
+                for &fault in &faults {
+                    v.push(Scenario::Failure { kind, inflight, timed, fault });
+                }
+            }
+        }
+        for reply_before_ms in [None, Some(2), Some(50), Some(4990)] {
+            for second_in_flight in [false, true] {
+                v.push(Scenario::Timeout { kind, reply_before_ms, second_in_flight });
+            }
+        }
+        v.push(Scenario::TwoTimeouts { kind });
+        v.push(Scenario::Cancel { kind, point: CancelPoint::BeforeStart });
+        v.push(Scenario::Cancel { kind, point: CancelPoint::AwaitingResponse });
+    }
+    v.push(Scenario::Cancel { kind: Kind::Async, point: CancelPoint::AwaitingWriterLock });
+    v
+}
+
+type Bad = Vec<(String, String)>;
+
+fn hostile_bytes(h: Hostile, id: u64) -> Vec<u8> {
+    let mut hd = Hdr::consistent(0, 0);
+    hd.version = 1;
+    hd.id = id;
+    match h {
+        Hostile::BadSpec => hd.spec = 0x0715,
+        Hostile::LengthMismatch => hd.length = 47,
+        Hostile::OverflowingSum => {
+            hd.query_length = u64::MAX - 47;
+            hd.length = 0;
+        }
+        Hostile::Declared2p62 => {
+            hd.body_length = 1 << 62;
+            hd.length = 48 + (1 << 62);
+        }
+        Hostile::TrailingGarbage => {}
+    }
+    let mut b = hd.encode().to_vec();
+    if h == Hostile::TrailingGarbage {
+        // a valid empty response for an unknown id followed by bytes that are not a header
+        b[16..24].copy_from_slice(&0xFFFF_0000u64.to_le_bytes());
+        b.extend_from_slice(&[0xAB; 48]);
+    }
+    b
+}
+
+async fn later_call_fails(cli: &Cli, ctx: &str, bad: &mut Bad) {
+    let h = tokio::spawn(cli.call(9000, None, 0));
+    match clients::join_call(h).await {
+        Res::Err(_) | Res::Timeout => {}
+        Res::Hang => bad.push(("C06:later-call-hangs".into(), format!("{ctx}: a call issued after the connection failed never returned"))),
+        other => bad.push(("C06:later-call-succeeds".into(), format!("{ctx}: a call issued after the connection failed returned {other:?}"))),
+    }
+}
+
+async fn run_failure(kind: Kind, inflight: usize, timed: bool, fault: Fault) -> (Bad, u64) {
+    let mut bad = Bad::new();
+    let ctx = format!("{} inflight={inflight} timed={timed} fault={fault:?}", kind.name());
+    let Conn { cli, mut peer, mut notifies } = clients::connect(kind).await;
+    if fault == Fault::CloseBeforeCalls {
+        peer.close();
+        memstream::settle().await;
+    }
+    let t = if timed { Some(Duration::from_secs(100)) } else { None };
+    let calls: Vec<_> = (0..inflight as u64).map(|i| tokio::spawn(cli.call(100 + i, t, 0))).collect();
+    let reqs = peer.drain_requests().await.unwrap_or_default();
+    let ids = clients::tag_ids(&reqs);
+    let mut answered: Option<u64> = None;
+    match fault {
+        Fault::CloseBeforeCalls => {}
+        Fault::CloseAfterRequests => peer.close(),
+        Fault::ResetAfterRequests => peer.reset(),
+        Fault::AnswerOneThenClose => {
+            if let Some(id) = ids.get(&100) {
+                peer.send(&clients::reply(*id)).await;
+                answered = Some(100);
+            }
+            peer.close();
+        }
+        Fault::MidResponse(c) => {
+            let id = ids.get(&100).copied().unwrap_or(1);
+            let whole = clients::reply(id).to_bytes();
+            let n = match c {
+                Cut::One => 1,
+                Cut::HeaderMinus1 => 47,
+                Cut::Header => 48,
+                Cut::HeaderPlusQuery => 50,
+                Cut::LenMinus1 => whole.len() - 1,
+            };
+            peer.send_bytes(&whole[..n]).await;
+            peer.close();
+        }
+        Fault::Malformed(h) => {
+            let id = ids.get(&100).copied().unwrap_or(1);
+            peer.send_bytes(&hostile_bytes(h, id)).await;
+        }
+    }
+    memstream::settle().await;
+    let mut flags = if inflight > 0 { 1 } else { 0 };
+    for (i, h) in calls.into_iter().enumerate() {
+        let r = clients::join_call(h).await;
+        let tag = 100 + i as u64;
+        let ok = match &r {
+            Res::Err(_) => true,
+            Res::Id(got) if answered == Some(tag) && ids.get(&tag) == Some(got) => true,
+            _ => false,
+        };
+        if !ok {
+            bad.push((
+                format!("C06:inflight-call:{}", match r { Res::Hang => "hangs", Res::Timeout => "waits-for-its-timeout", _ => "returns-a-value" }),
+                format!("{ctx}: in-flight call #{i} returned {r:?} instead of an error"),
+            ));
+        }
+    }
+    later_call_fails(&cli, &ctx, &mut bad).await;
+    if cli.pending() != 0 {
+        bad.push(("C06:pending-residue".into(), format!("{ctx}: {} pending entries remain", cli.pending())));
+    }
+    if let Some(rx) = notifies.as_mut() {
+        flags |= 2;
+        match tokio::time::timeout(clients::HOUR, rx.recv()).await {
+            Ok(None) => {}
+            Ok(Some(m)) => bad.push(("C06:subscriber-got-frame".into(), format!("{ctx}: subscriber received a frame (id {}) instead of end-of-stream", m.header.id))),
+            Err(_) => bad.push(("C06:subscriber-no-eof".into(), format!("{ctx}: the notification subscriber never saw end-of-stream"))),
+        }
+    }
+    (bad, flags)
+}
+
+const T: Duration = Duration::from_secs(5);
+
+async fn run_timeout(kind: Kind, reply_before_ms: Option<u64>, second_in_flight: bool) -> (Bad, u64) {
+    let mut bad = Bad::new();
+    let ctx = format!("{} reply_before_ms={reply_before_ms:?} second_in_flight={second_in_flight}", kind.name());
+    let Conn { cli, mut peer, .. } = clients::connect(kind).await;
+    let start = tokio::time::Instant::now();
+    let a = tokio::spawn(cli.call(1, Some(T), 0));
+    let reqs = peer.drain_requests().await.unwrap_or_default();
+    let Some(id_a) = clients::tag_ids(&reqs).get(&1).copied() else {
+        return (vec![("C06:request-missing".into(), ctx)], 0);
+    };
+    let mut flags = 4;
+    let expect_a = match reply_before_ms {
+        Some(ms) => {
+            // move the clock to `ms` milliseconds (at least 2 ms: timer granularity) before the
+            // call's own deadline, measured from the instant the call was started
+            let target = start + T - Duration::from_millis(ms.max(2));
+            tokio::time::advance(target.saturating_duration_since(tokio::time::Instant::now())).await;
+            peer.send(&clients::reply(id_a)).await;
+            memstream::settle().await;
+            Res::Id(id_a)
+        }
+        None => {
+            let target = start + T + Duration::from_millis(2);
+            tokio::time::advance(target.saturating_duration_since(tokio::time::Instant::now())).await;
+            memstream::settle().await;
+            Res::Timeout
+        }
+    };
+    let ra = clients::join_call(a).await;
+    if ra != expect_a {
+        bad.push((
+            format!("C06:timeout-race:{}", if ra == Res::Hang { "hang" } else { "wrong-result" }),
+            format!("{ctx}: call with a 5 s timeout returned {ra:?}, expected {expect_a:?}"),
+        ));
+    }
+    if cli.pending() != 0 {
+        bad.push(("C06:pending-residue".into(), format!("{ctx}: {} pending entries after the call returned", cli.pending())));
+    }
+    // the client keeps serving: a second call, with the late response arriving around it
+    let b = if second_in_flight { Some(tokio::spawn(cli.call(2, None, 0))) } else { None };
+    let mut reqs2 = peer.drain_requests().await.unwrap_or_default();
+    if reply_before_ms.is_none() {
+        // late response for the timed-out call
+        peer.send(&clients::reply(id_a)).await;
+        memstream::settle().await;
+        flags |= 8;
+    }
+    let b = match b {
+        Some(b) => b,
+        None => {
+            let h = tokio::spawn(cli.call(2, None, 0));
+            reqs2 = peer.drain_requests().await.unwrap_or_default();
+            h
+        }
+    };
+    match clients::tag_ids(&reqs2).get(&2).copied() {
+        Some(id_b) => {
+            if b.is_finished() {
+                bad.push(("C06:late-response-misdelivered".into(), format!("{ctx}: the second call finished before its own response was sent")));
+            }
+            peer.send(&clients::reply(id_b)).await;
+            let rb = clients::join_call(b).await;
+            if rb != Res::Id(id_b) {
+                bad.push((
+                    format!("C06:client-not-usable-after-timeout:{}", if rb == Res::Hang { "hang" } else { "wrong-result" }),
+                    format!("{ctx}: the call after the timed-out one returned {rb:?}, expected its own response (id {id_b})"),
+                ));
+            }
+        }
+        None => bad.push(("C06:request-missing".into(), format!("{ctx}: the second call's request never reached the peer"))),
+    }
+    if cli.pending() != 0 {
+        bad.push(("C06:pending-residue".into(), format!("{ctx}: {} pending entries at the end", cli.pending())));
+    }
+    (bad, flags)
+}
+
+async fn run_two_timeouts(kind: Kind) -> (Bad, u64) {
+    let mut bad = Bad::new();
+    let ctx = format!("{} two timeouts", kind.name());
+    let Conn { cli, mut peer, .. } = clients::connect(kind).await;
+    let a = tokio::spawn(cli.call(1, Some(Duration::from_secs(2)), 0));
+    let b = tokio::spawn(cli.call(2, Some(Duration::from_secs(8)), 0));
+    let reqs = peer.drain_requests().await.unwrap_or_default();
+    let ids = clients::tag_ids(&reqs);
+    tokio::time::advance(Duration::from_secs(3)).await;
+    memstream::settle().await;
+    if let Some(id_b) = ids.get(&2) {
+        peer.send(&clients::reply(*id_b)).await;
+    }
+    let ra = clients::join_call(a).await;
+    let rb = clients::join_call(b).await;
+    if ra != Res::Timeout {
+        bad.push(("C06:timeout-race:wrong-result".into(), format!("{ctx}: the 2 s call returned {ra:?} after 3 s without a response")));
+    }
+    if Some(&rb) != ids.get(&2).map(|i| Res::Id(*i)).as_ref() {
+        bad.push(("C06:sibling-affected".into(), format!("{ctx}: the 8 s call, answered at 3 s, returned {rb:?}")));
+    }
+    if cli.pending() != 0 {
+        bad.push(("C06:pending-residue".into(), format!("{ctx}: {} pending entries at the end", cli.pending())));
+    }
+    (bad, 16)
+}
+
+async fn run_cancel(kind: Kind, point: CancelPoint) -> (Bad, u64) {
+    let mut bad = Bad::new();
+    let ctx = format!("{} cancel at {point:?}", kind.name());
+    let Conn { cli, mut peer, .. } = clients::connect(kind).await;
+    let mut late: Option<u64> = None;
+    match point {
+        CancelPoint::BeforeStart => {
+            let fut = cli.call(1, None, 0);
+            drop(fut);
+        }
+        CancelPoint::AwaitingResponse => {
+            let h = tokio::spawn(cli.call(1, None, 0));
+            let reqs = peer.drain_requests().await.unwrap_or_default();
+            late = clients::tag_ids(&reqs).get(&1).copied();
+            if cli.pending() != 1 {
+                bad.push(("C06:cancel:not-registered".into(), format!("{ctx}: pending is {} while a call awaits its response", cli.pending())));
+            }
+            h.abort();
+            let _ = h.await;
+        }
+        CancelPoint::AwaitingWriterLock => {
+            // a large call stalls in the writer; a second call queues on the writer lock
+            peer.ctl().a_to_b.set_credit(Some(10));
+            let big = tokio::spawn(cli.call(7, None, 20_000));
+            memstream::settle().await;
+            let small = tokio::spawn(cli.call(1, None, 0));
+            memstream::settle().await;
+            if cli.pending() != 2 {
+                bad.push(("C06:cancel:not-registered".into(), format!("{ctx}: pending is {} with two calls started", cli.pending())));
+            }
+            small.abort();
+            let _ = small.await;
+            if cli.pending() != 1 {
+                bad.push(("C06:pending-residue".into(), format!("{ctx}: pending is {} after cancelling the queued call (1 expected: the stalled one)", cli.pending())));
+            }
+            peer.ctl().a_to_b.set_credit(None);
+            let reqs = peer.drain_requests().await.unwrap_or_default();
+            let ids = clients::tag_ids(&reqs);
+            if ids.contains_key(&1) {
+                // the cancelled call had not written anything; it must not appear later either
+                bad.push(("C06:cancelled-call-sent".into(), format!("{ctx}: the cancelled call's request reached the peer")));
+            }
+            match ids.get(&7) {
+                Some(id) => {
+                    peer.send(&clients::reply(*id)).await;
+                    let r = clients::join_call(big).await;
+                    if r != Res::Id(*id) {
+                        bad.push(("C06:sibling-affected".into(), format!("{ctx}: the stalled call returned {r:?} after its sibling was cancelled")));
+                    }
+                }
+                None => bad.push(("C06:sibling-affected".into(), format!("{ctx}: the stalled call's request never completed"))),
+            }
+        }
+    }
+    memstream::settle().await;
+    if cli.pending() != 0 {
+        bad.push(("C06:pending-residue".into(), format!("{ctx}: {} pending entries after cancellation", cli.pending())));
+    }
+    // late response for the cancelled call is discarded; the client keeps working
+    let next = tokio::spawn(cli.call(2, None, 0));
+    let reqs = peer.drain_requests().await.unwrap_or_default();
+    if let Some(id) = late {
+        peer.send(&clients::reply(id)).await;
+        memstream::settle().await;
+        if next.is_finished() {
+            bad.push(("C06:late-response-misdelivered".into(), format!("{ctx}: the response of the cancelled call completed another call")));
+        }
+    }
+    match clients::tag_ids(&reqs).get(&2).copied() {
+        Some(id2) => {
+            peer.send(&clients::reply(id2)).await;
+            let r = clients::join_call(next).await;
+            if r != Res::Id(id2) {
+                bad.push(("C06:client-not-usable-after-cancel".into(), format!("{ctx}: the next call returned {r:?}, expected id {id2}")));
+            }
+        }
+        None => bad.push(("C06:request-missing".into(), format!("{ctx}: the next call's request never reached the peer ({} bytes of a partial frame pending)", peer.partial_len()))),
+    }
+    if cli.pending() != 0 {
+        bad.push(("C06:pending-residue".into(), format!("{ctx}: {} pending entries at the end", cli.pending())));
+    }
+    (bad, 32)
+}
+
+async fn run_one(sc: &Scenario) -> (Bad, u64) {
+    match sc {
+        Scenario::Failure { kind, inflight, timed, fault } => run_failure(*kind, *inflight, *timed, *fault).await,
+        Scenario::Timeout { kind, reply_before_ms, second_in_flight } => run_timeout(*kind, *reply_before_ms, *second_in_flight).await,
+        Scenario::TwoTimeouts { kind } => run_two_timeouts(*kind).await,
+        Scenario::Cancel { kind, point } => run_cancel(*kind, *point).await,
+    }
+}
+
+pub fn run(tier: Tier) -> ! {
+    let ctx = Ctx::new("C06", tier);
+    let all = scenarios(tier);
+    let samples = Samples::new(4);
+    samples.offer(|| json!(format!("{:?}", all[7])));
+    samples.offer(|| json!(format!("{:?}", all[all.len() - 1])));
+    let parts = par::for_each_index(
+        all.len() as u64,
+        8,
+        |_| {
+            let rt = tokio::runtime::Builder::new_current_thread().enable_time().start_paused(true).build().unwrap();
+            (rt, Vec::<(usize, String, String)>::new(), BTreeMap::<u64, u64>::new(), 0u64)
+        },
+        |(rt, bad, flagc, n), i| {
+            let (b, flags) = rt.block_on(run_one(&all[i as usize]));
+            *n += 1;
+            for bit in 0..6 {
+                if flags & (1 << bit) != 0 {
+                    *flagc.entry(bit).or_insert(0) += 1;
+                }
+            }
+            for (k, w) in b {
+                bad.push((i as usize, k, w));
+            }
+        },
+    );
+    let mut executed = 0;
+    let mut flagc = BTreeMap::<u64, u64>::new();
+    let mut bads = Vec::new();
+    for (_, bad, f, n) in parts {
+        executed += n;
+        for (k, v) in f {
+            *flagc.entry(k).or_insert(0) += v;
+        }
+        bads.extend(bad);
+    }
+    bads.sort_by_key(|b| b.0);
+    for (i, k, w) in bads {
+        ctx.violation(k, w, json!({"scenario": format!("{:?}", all[i]), "index": i, "tier": tier.name()}));
+    }
+    let g = |b: u64| flagc.get(&b).copied().unwrap_or(0);
+    if !ctx.has_violation() && (0..6).any(|b| g(b) == 0) {
+        ctx.machinery("vacuous exploration: a scenario family never ran");
+    }
+    let coverage = json!({
+        "evaluations": executed,
+        "distinct_nontrivial": all.len(),
+        "rule": "for both tokio clients over an in-memory stream with a paused clock: every fault (peer closes before the calls / after reading them, reset, reply cut after 1/47/48/50/len-1 bytes, five kinds of malformed frame, answer one then close) x 0..3 (thorough 0..16) calls in flight x with/without per-call timeouts; a response arriving 4990/50/2 ms before a 5 s timeout and 2 ms after it, with and without another call in flight; two staggered timeouts; cancellation before start, while awaiting the response and while queued on the writer lock. A call that is still pending after a virtual hour hangs. Distinct = scenarios (each has a different script).",
+        "samples": samples.take(),
+        "exhaustive": executed == all.len() as u64,
+        "nonvacuity": {"failures_with_calls_in_flight": g(0), "subscriber_eof_checks": g(1), "timeout_scenarios": g(2), "late_responses_after_timeout": g(3), "staggered_timeouts": g(4), "cancellations": g(5)},
+    });
+    ctx.finish(
+        "fault_enumeration",
+        coverage,
+        &[
+            "single-threaded runtime + paused clock: the only nondeterminism is the script; wall-clock promptness is not measured, only 'returns without waiting for anything that will never come'",
+            "a call answered before the peer closes may return that answer or an error",
+            "cancellation while a frame is partly written is C05's subject",
+        ],
+    )
+}
+
+pub fn replay(case: &Value) -> Result<(), String> {
+    let tier = if case["tier"].as_str() == Some("thorough") { Tier::Thorough } else { Tier::Quick };
+    let all = scenarios(tier);
+    let i = case["index"].as_u64().ok_or("index")? as usize;
+    let sc = all.get(i).ok_or("index out of range")?;
+    let (b, _) = memstream::run_paused(run_one(sc));
+    if b.is_empty() { Ok(()) } else { Err(b.into_iter().map(|(k, w)| format!("{k}: {w}")).collect::<Vec<_>>().join("\n")) }
+}
+
+#[allow(dead_code)]
+fn _unused(_: Frame) {}
